@@ -3,7 +3,11 @@ P and Q are generated over disjoint variable names but overlapping signal types 
 they are compiled together under a random order-preserving interleaving.  The specification of the
 interleaved program restricted to P's names is P's own specification (Denote.v evaluates a declaration
 from the earlier declarations it references only), so validating the joint blueprint against the
-interleaved specification for all inputs IS the statement that Q does not disturb P and vice versa."""
+interleaved specification for all inputs IS the statement that Q does not disturb P and vice versa.
+Props/C12.v proves that statement: a part embedded in a program (checked per case by `embeds`, Proofs/
+EmbedProofs.v) keeps inside it exactly the values it has alone (`embedded_values`), and with the
+certificate of the joint blueprint every output of the part shows the part's own value
+(`C12_part_unaffected_by_the_rest`)."""
 from __future__ import annotations
 
 import random
@@ -14,6 +18,7 @@ import gen_scalar
 from props import c01
 
 PROP = "C12"
+FILES = ["Proofs/FrameProofs.v", "Proofs/EmbedProofs.v", "Props/C12.v"]
 
 
 def rename(p, suffix):
@@ -28,11 +33,15 @@ def shift(e, m):
     return tuple(shift(x, m) for x in e)
 
 
-def interleave(P, Q, rng):
+def interleave(P, Q, rng, maps=None):
+    """order-preserving random interleaving; maps (if given) receives the two position maps"""
     order = ["P"] * len(P) + ["Q"] * len(Q)
     rng.shuffle(order)
     ip = iq = 0
     mp, mq, out = {}, {}, []
+    if maps is not None:
+        maps.append(mp)
+        maps.append(mq)
     for o in order:
         if o == "P":
             d = P[ip]
@@ -59,20 +68,29 @@ def make_items(seed, n):
         if rng.random() < 0.25:
             parts.append(rename(gen_scalar.gen_program(seed * 15485863 + 7 * i + 3), "r"))
         prog = parts[0]
+        rhos = [list(range(len(parts[0])))]          # position of every declaration of each part in `prog`
         for nxt in parts[1:]:
-            prog = interleave(prog, nxt, rng)
+            maps = []
+            prog = interleave(prog, nxt, rng, maps)
+            mp, mq = maps
+            rhos = [[mp[x] for x in r_] for r_ in rhos] + [[mq[k_] for k_ in range(len(nxt))]]
         if max(fa.unfolded_size(prog)) > 250 or len(prog) > 16:
             continue
-        items.append(engine.Item(len(items), prog))
+        it = engine.Item(len(items), prog)
+        # every part, as written on its own, with its position list: the case also checks (in Coq) that the
+        # compiled program embeds each part, so that Props/C12.v applies to it
+        it.parts = list(zip(parts, rhos))
+        items.append(it)
     return items
 
 
 def run(tier, seed, t0):
     return c01.run(tier, seed, t0, prop=PROP, n_quick=30, n_thorough=300, make_items=make_items,
-                   props_file="Props/C01.v",
+                   props_file="Props/C12.v", files=FILES,
                    rule="pairs (a quarter: triples) of random programs over disjoint names but shared signal types, "
                         "interleaved order-preservingly and compiled together; the joint blueprint is validated for all "
-                        "inputs against the interleaved specification; known-finding regions classified per blueprint")
+                        "inputs against the interleaved specification, and each part is checked (in Coq) to be embedded in the "
+                        "compiled program so that Props/C12.v applies; known-finding regions classified per blueprint")
 
 
 def replay(path):
